@@ -42,6 +42,9 @@ func (s *sim) genBoot() Action {
 	a.Tmpl = r.Chance(1, 2)
 	a.Port443 = r.Chance(1, 5)
 	a.IPv6 = r.Chance(1, 3)
+	if s.cacheBad {
+		a.Cache = r.Chance(7, 8) // the damaged file is what the next start is about
+	}
 	switch s.cfg.Profile {
 	case "C12":
 		a.OneShell = r.Chance(4, 5)
@@ -83,21 +86,48 @@ func (s *sim) generate() (Action, bool) {
 		}
 	}
 	prof := s.cfg.Profile
-	w := map[string]int{"boot": 100, "stop": 3, "get_c": 10, "tmpl": 4, "run_script": 6, "open": 6, "bad": 3, "line": 8, "out": 8, "close": 4, "sleep": 3, "del_cache": 1, "probe": 2, "io": 2, "burst": 2, "regen": 1, "pre": 2, "chain": 1, "resetl": 2}
+	w := map[string]int{"boot": 100, "stop": 3, "get_c": 10, "tmpl": 4, "run_script": 6, "open": 6, "bad": 3, "line": 8, "out": 8, "close": 4, "sleep": 3, "del_cache": 1, "probe": 2, "io": 2, "burst": 2, "regen": 1, "pre": 2, "chain": 1, "resetl": 2,
+		"flood": 1, "early": 1, "damage": 10, "linkpre": 15}
 	switch prof {
 	case "C05":
 		w["stop"], w["get_c"], w["run_script"], w["close"], w["del_cache"], w["regen"], w["chain"] = 8, 12, 8, 8, 2, 3, 4
+		w["damage"] = 60
+	case "C08":
+		w["stop"], w["damage"] = 8, 60
 	case "C07":
 		w["get_c"], w["tmpl"], w["run_script"], w["stop"], w["burst"] = 30, 12, 8, 2, 8
+		w["linkpre"] = 60
+	case "C03":
+		w["io"], w["out"], w["flood"] = 5, 12, 5
+	case "C11":
+		w["io"], w["bad"], w["close"], w["early"], w["open"] = 6, 6, 8, 10, 8
 	case "C12":
 		w["open"], w["bad"], w["line"], w["out"], w["close"], w["sleep"], w["get_c"], w["io"], w["pre"] = 12, 6, 10, 10, 5, 6, 3, 4, 6
+	}
+	if s.floods >= 3 || s.floods >= 1 && prof != "C03" {
+		w["flood"] = 0 // (they are costly)
 	}
 	add(s.genBoot(), w["boot"])
 	add(Action{K: "stop"}, w["stop"])
 	add(s.genGetC(), w["get_c"])
 	kinds := []string{"valid", "valid", "valid", "unparsable", "execfail", "empty", "missing", "dir"}
 	s.tmplSerial++
-	add(Action{K: "tmpl", T: kinds[r.Intn(len(kinds))], N: s.tmplSerial}, w["tmpl"])
+	add(Action{K: "tmpl", T: kinds[r.Intn(len(kinds))], N: s.tmplSerial, Via: []string{"", "link"}[r.Intn(2)]}, w["tmpl"])
+	if s.boot == nil {
+		// the template is put in place, behind a link, before the server starts
+		add(Action{K: "tmpl", T: "valid", N: s.tmplSerial, Via: "link"}, w["linkpre"])
+		// the cache file takes a hit between two runs
+		d := Action{K: "damage_cache", Mask: r.Range(1, 63)}
+		switch r.Pick([]int{6, 4, 1}) {
+		case 0: // the first bytes of the public key info: its framing
+			d.Which, d.N, d.Mask = "spki", r.Intn(4), 1<<r.Intn(8)
+		case 1:
+			d.Which, d.N, d.Mask = certRegions[r.Intn(len(certRegions))], r.Intn(4096), 1<<r.Intn(8)
+		default:
+			d.Which, d.N = "key", r.Intn(4096)
+		}
+		add(d, w["damage"])
+	}
 	add(Action{K: "run_script"}, w["run_script"])
 	add(Action{K: "del_cache"}, w["del_cache"])
 	add(Action{K: "regen_cache"}, w["regen"])
@@ -107,6 +137,11 @@ func (s *sim) generate() (Action, bool) {
 	add(Action{K: "sleep", Ms: []int{1, 100, 1900, 2100, 5000, 60000}[r.Intn(6)]}, w["sleep"])
 	add(Action{K: "preconnect"}, w["pre"])
 	live := s.liveSession()
+	flood := func(a Action) Action {
+		a.Flood = []int{300, 384, 520, 600, 64}[r.Intn(5)]
+		a.Piece = []int{16, 60, 128, 300}[r.Intn(4)]
+		return a
+	}
 	if live == nil && len(s.pre) > 0 {
 		// a request on a connection that was made a while ago
 		add(Action{K: "open_io", S: len(s.sess), Pre: true}, w["pre"]*2)
@@ -129,6 +164,20 @@ func (s *sim) generate() (Action, bool) {
 			add(Action{K: "open_out", S: len(s.sess), ID: id, N: r.Intn(3)}, w["open"])
 		}
 		add(Action{K: "open_io", S: len(s.sess)}, w["io"])
+		// a shell that is busy from the first instant: output follows the request at once
+		add(flood(Action{K: "open_io", S: len(s.sess)}), w["flood"])
+		add(flood(Action{K: "open_out", S: len(s.sess), ID: id, N: r.Intn(3)}), (w["flood"]+1)/2)
+		// a client that is gone before the server has dealt with its request
+		ek := []string{"open_io", "open_io", "open_in", "open_out"}[r.Intn(4)]
+		if s.job.Mode == "selftest" && ek == "open_io" {
+			// (which of the two halves' notices appear is the runtime's to choose, so not in self-test runs)
+			ek = "open_in"
+		}
+		e := Action{K: ek, S: len(s.sess), Early: true}
+		if ek != "open_io" {
+			e.ID = id
+		}
+		add(e, w["early"])
 	} else {
 		if live.io == nil {
 			if live.in == nil {
@@ -136,8 +185,11 @@ func (s *sim) generate() (Action, bool) {
 			}
 			if live.out == nil {
 				add(Action{K: "open_out", S: live.n, N: r.Intn(3)}, w["open"]*3)
+				add(flood(Action{K: "open_out", S: live.n, N: r.Intn(3)}), w["flood"])
 			}
 		}
+		add(flood(Action{K: "out", S: live.n}), w["flood"])
+		add(Action{K: "open_io", S: len(s.sess), Which: "bad", Early: true}, w["early"])
 		// an attempt that must be refused: wrong ID, a duplicate half, or /io
 		has := live.in != nil || live.out != nil || live.io != nil
 		if has {
